@@ -30,17 +30,17 @@ type Obligation struct {
 
 // Report collects obligations of one property run
 type Report struct {
-	Prop        string
-	Tier        string
-	Obls        []Obligation
-	Notes       []string          // informational notes (not verdicts)
-	MinCount    map[string]int    // rule -> minimum number of instances confirmed by hand
-	Explain     string            // what is decided / not decided
-	Assumptions []string          // trusted base
-	Extra       map[string]any    // extra coverage keys
-	Exhaustive  bool
-	Analysed    map[string]int    // counters: packages, functions, call sites ...
-	start       time.Time
+	Prop            string
+	Tier            string
+	Obls            []Obligation
+	Notes           []string       // informational notes (not verdicts)
+	MinCount        map[string]int // rule -> minimum number of instances confirmed by hand
+	Explain         string         // what is decided / not decided
+	Assumptions     []string       // trusted base
+	Extra           map[string]any // extra coverage keys
+	Exhaustive      bool
+	Analysed        map[string]int // counters: packages, functions, call sites ...
+	start           time.Time
 	selfTestResults []selfTestResult
 	benignResults   []selfTestResult
 }
@@ -53,8 +53,12 @@ func (r *Report) add(rule, construct, status, pos, detail string) {
 	r.Obls = append(r.Obls, Obligation{Rule: rule, Construct: construct, Status: status, Pos: pos, Detail: detail})
 }
 
-func (r *Report) hold(rule, construct, pos, detail string) { r.add(rule, construct, Holds, pos, detail) }
-func (r *Report) viol(rule, construct, pos, detail string) { r.add(rule, construct, Violated, pos, detail) }
+func (r *Report) hold(rule, construct, pos, detail string) {
+	r.add(rule, construct, Holds, pos, detail)
+}
+func (r *Report) viol(rule, construct, pos, detail string) {
+	r.add(rule, construct, Violated, pos, detail)
+}
 func (r *Report) lost(rule, construct string) {
 	r.add(rule, construct, AnchorLost, "", "anchored declaration not found in /repo (renamed or removed?)")
 }
@@ -73,8 +77,8 @@ func (r *Report) check(ok bool, rule, construct, pos, okDetail, badDetail string
 }
 
 func (r *Report) note(format string, a ...any) { r.Notes = append(r.Notes, fmt.Sprintf(format, a...)) }
-func (r *Report) min(rule string, n int)      { r.MinCount[rule] = n }
-func (r *Report) count(key string, n int)     { r.Analysed[key] += n }
+func (r *Report) min(rule string, n int)       { r.MinCount[rule] = n }
+func (r *Report) count(key string, n int)      { r.Analysed[key] += n }
 
 // ---- known findings
 
